@@ -61,28 +61,7 @@ func c16Run(c *core.Ctx, i int) *core.Result {
 	}
 	forced := ref.Forced
 	if res.Verdict != core.Violated {
-	battery:
-		for _, f := range g.TopFns {
-			if _, ok := genv.M[f.Name]; !ok {
-				continue
-			}
-			for _, arg := range []int64{1, 3} {
-				call := []*lang.N{lang.BatteryCall(f, arg)}
-				bt := lang.Plain.Program(call)
-				ref.Trace, s.Trace, ref.Steps = nil, nil, 0
-				bv, berr := ref.Run(call, genv)
-				if berr != nil && berr.Kind == "budget" {
-					break battery
-				}
-				bo := s.Eval(bt, int64(400*ref.Steps+100000))
-				res.Evals++
-				res.Ev("battery_calls", 1)
-				if key, detail := CompareRun(bv, berr, ref.Trace, bo, s.Trace); key != "" {
-					res.Violate("battery:"+key, fmt.Sprintf("after the program, %s: %s", bt, detail), text+bt)
-					break battery
-				}
-			}
-		}
+		RunBattery(res, g, ref, genv, s, text, []int64{1, 3}, "")
 	}
 	res.Ev("thunks_forced", int64(ref.Forced))
 	res.Ev("lazy_params", int64(g.NLazyParams))
